@@ -1105,6 +1105,7 @@ class PairEngine:
         e.extra['form'] = 'dedupe' if dedupe else ('bulk' if bulk else 'single')
         # N.dec
         decs = []
+        refuted = []
         for c in self.companions(ctx, 'N.'):
             if c.kind == 'N.dec' or (c.kind == 'N.sub' and c.args[0] == ('int', 1)):
                 extra_c, extra_e = ctx.region_diff(c.node, e.node)
@@ -1116,11 +1117,19 @@ class PairEngine:
                     ok, notes = _benign_extra(ctx, extra_c, None, pair, e, c.node)
                     if ok:
                         decs.append((c, 'once-per-pair'))
+                    elif bulk and once_per_pair_named(ctx, c.node, e, pair) is False:
+                        refuted.append(c)
         want_guard = bool(ctx.undirected and (bulk or dedupe))
         good = [d for d in decs if (d[1] == 'once-per-pair') == want_guard]
         if len(good) == 1:
             self.ok('F-PAIR.N', ctx, dict(function=f.display(), event=ctx.desc(e.node), form=e.extra['form'],
                                           companion=ctx.desc(good[0][0].node), region=good[0][1]))
+        elif not good and refuted:
+            # the guard was evaluated for both half-edges of a pair: it holds for both or for neither in some scenario
+            self.R('F-PAIR.N').fail(Finding('F-PAIR.N', f.display(), site + ' <-> --edgeNumber', f.nloc(refuted[0].node),
+                                            'the decrement of the edge count sits under a guard that is not true for exactly one of the two '
+                                            'half-edges of every removed pair (evaluated for the pair {1,2} with the operated vertex being 1, 2 '
+                                            'or another vertex, and for a loop): some pair is counted twice or not at all'))
         else:
             self.fail('F-PAIR.N', ctx, site + ' <-> --edgeNumber', e.node,
                       'a list entry is erased but the edge count is not decremented exactly once per removed edge '
